@@ -148,6 +148,9 @@ def run_precip(case):
 
     cfg = {'system': case['system'], 'nphases': case['nphases'], 'it': case['it'], 'record': case['record'], 'temp': case['temp'],
            'shape': case['shape'], 'ratio': 3.0, 'constraints': {'dtScale': 0.05}}
+    if case.get('grid') == 'small':
+        # a small grid that is extended / re-meshed before the save point, so that the saved grid differs from the configured one
+        cfg['pbm'] = [2e-10, 2e-9, 20, 10, 40]
     it = SolverType.EXPLICITEULER if case['it'] == 'euler' else SolverType.RK4
     dt_call = case['tcall']
     d = _scratch_dir()
@@ -206,6 +209,8 @@ def run_precip(case):
     finally:
         shutil.rmtree(d, ignore_errors=True)
     populated = bool(np.any(A.pData.volFrac[steps] > 0))
+    if any(int(pb.bins) != int(cfg.get('pbm', [0, 0, 75])[2]) for pb in A.PBM):
+        outcome += '/grid-changed'
     return {'viol': viol, 'states': steps, 'transitions': int(A.pData.n), 'outcome': outcome + ('/pop' if populated else '/empty'),
             'nontrivial': populated, 'info': {'steps_at_save': steps, 'steps_after_continue': int(A.pData.n)}}
 
@@ -993,6 +998,9 @@ def run(ctx):
                                 for temp in (['iso'] if quick else ['iso', 'heat']):
                                     pcases.append({'system': system, 'nphases': nph, 'record': record, 'save': save, 'ext': ext, 'it': it,
                                                    'shape': shape, 'temp': temp, 'tcall': 1.5})
+                                    if ext and (record or not quick):
+                                        pcases.append({'system': system, 'nphases': nph, 'record': record, 'save': save, 'ext': ext, 'it': it,
+                                                       'shape': shape, 'temp': temp, 'tcall': 6.0, 'grid': 'small'})
     ctx.product_run('roundtrip-precip', 'checks.c20:run_precip', pcases, chunksize=1)
     # ---- diffusion
     dcases = []
